@@ -29,7 +29,13 @@ RULE = ('one or two groups whose data (H, S, 1-4 Cp points, range) are split '
         'pieces, library-level Update with aliasing probes. Non-trivial = a '
         'split whose every order/nesting was loaded and compared, or a '
         'history whose every step was compared; distinct by split/history.'
-        ' Pieces may consist of a range alone. ')
+        ' Pieces may consist of a range alone. '
+        ' '
+        'Rounds 17-19: every other tree keeps byte size and time stamps'
+        ' across rewrites; conflict written into files that loaded before,'
+        ' and repaired in place after a refused load; library directory'
+        " reached through a directory link with a '../common/...' include"
+        ' (with / without a stale sibling).')
 ASSUMPTIONS = [
     'all pieces share one T_ref; every piece that carries Cp points carries a '
     'range containing them and T_ref (the constructor demands it)',
